@@ -12,7 +12,9 @@ Inductive lev := LM (code : Z) | LA (kind : N).
 
 Record run_obs := mkRun {
   r_bt : N;            (* which backtest (strategy parameterisation) *)
-  r_workers : N;       (* 0 = run alone; else worker threads of the concurrent batch it ran in *)
+  r_workers : N;       (* 0 = run alone (multi-thread runtime); 1000 = run alone on a current_thread
+                          runtime; 99 = member of a batch on a current_thread runtime; else worker
+                          threads of the multi-thread runtime of the concurrent batch it ran in *)
   r_pos_id : N;        (* this run is position [r_bt] of its batch: which backtest's id does the
                           summary found at that position of the returned Vec carry
                           (9999 = none of the batch's ids) *)
@@ -25,9 +27,17 @@ Record run_obs := mkRun {
   r_sum_ok : bool;     (* the summary found at this run's POSITION = the repo's generators applied
                           to THIS backtest's own engine's final instrument / asset state, with
                           this backtest's id and risk-free rate (distinct per backtest) *)
-  r_clock_ok : bool    (* every fill this engine processed is stamped (minute resolution) by this
+  r_clock_ok : bool;   (* every fill this engine processed is stamped (minute resolution) by this
                           backtest's own clock: the latest market time its engine had processed
                           (paced feed) / within [first dataset time, latest processed] (plain) *)
+  r_fills_ok : bool;   (* paced feed: every order sent got its response, every order the mock
+                          exchange accepted produced exactly one fill and one balance update that
+                          reached this engine, and the account stream never re-synchronised
+                          (plain feed: true — fills behind Shutdown are known finding class 1) *)
+  r_clock_regressed : bool
+                       (* observed: the mock exchange's clock went backwards between two orders it
+                          accepted one after the other (sequence numbers i < j on one exchange,
+                          exchange time of fill j earlier than that of fill i) *)
 }.
 
 Record case := mkCase {
@@ -148,7 +158,7 @@ Definition run_hard (c : case) (r : run_obs) : bool :=
   match c_fatal c with
   | None =>
       N.eqb (r_outcome r) 0 && list_eqb Z.eqb (market_codes (r_log r)) (c_ds c) && r_sum_ok r &&
-      N.eqb (r_pos_id r) (r_bt r) && r_clock_ok r
+      N.eqb (r_pos_id r) (r_bt r) && r_clock_ok r && r_fills_ok r
   | Some _ =>
       (N.eqb (r_outcome r) 0 || N.eqb (r_outcome r) 2) &&
       is_prefix (market_codes (r_log r)) (c_ds c) &&
@@ -180,8 +190,26 @@ Definition prop_b (c : case) : bool := hard_b c && isolated_b c.
     so execution responses (fills, balances) are queued after Shutdown and are processed or not
     depending on scheduling: fills / positions / PnL of one and the same backtest differ from
     run to run.  Only that difference is excused, only for the plain feed; the schedule
-    independent part stays a hard failure, and so does any difference under the paced feed. *)
+    independent part stays a hard failure, and so does any difference under the paced feed
+    (except class 2 below). *)
+
+(** Known finding, class 2: HistoricalClock::process re-bases the clock on every account event
+    (time_exchange_last := event time, time_live_last_event := now), so HistoricalClock::time()
+    steps backwards by the wall-clock age of that event; requests of one burst stamped around
+    that moment get non-monotone times, the mock exchange stamps its balance snapshots with them
+    and the engine's latest-wins guard drops the newest balance: the final balance is stale by a
+    fill, depending on scheduling.  Excused only under the paced feed, only when all hard facts
+    hold, and only if EVERY run that differs from its alone run shows (itself, or that alone
+    run) an observed clock regression. *)
+Definition regression_explains (c : case) (r : run_obs) : bool :=
+  same_as_alone c r || r_clock_regressed r ||
+  existsb (fun a => N.eqb (r_workers a) 0 && N.eqb (r_bt a) (r_bt r) && r_clock_regressed a)
+          (c_runs c).
+
 Definition known_b (c : case) : N :=
-  if negb (c_paced c) && hard_b c && negb (isolated_b c) then 1%N else 0%N.
+  if hard_b c && negb (isolated_b c) then
+    if negb (c_paced c) then 1%N
+    else if forallb (regression_explains c) (c_runs c) then 2%N else 0%N
+  else 0%N.
 
 Definition judge (c : case) : N := judge_code (corr_b c) (prop_b c) (known_b c).
